@@ -199,6 +199,10 @@ def run (c : Case) : CaseOut := Id.run do
   let some pred := cfg.pred | return bad
   let q : Q := { outputs := cfg.outs, pred := pred }
   let bounds := cfg.mode == "direct"
+  -- `nap` / `reap` (STATETTL scenario): wall-clock ops after which no group may have been reaped — no-ops of the model
+  let isRowOp (op : List String) : Bool := !(op == ["nap"] || op == ["reap"])
+  let allOps := c.ops
+  let c : Case := { c with ops := allOps.filter fun (op, _) => isRowOp op }
   let some rows := c.ops.mapM (fun (op, _) => parseRow cfg.nkeys op) | return bad
   -- model
   let outs := Global.run encGlobal q rows
@@ -254,6 +258,14 @@ def run (c : Case) : CaseOut := Id.run do
       | some t => t.contains '|' || t.contains '\\' || t.isEmpty
       | none => false) then tags := addTag tags "separator-or-empty-key-part"
   if (segsM.zip outs).any (fun (seg, o) => o.isSome && seg.length ≥ 2) then tags := addTag tags "fired-on-multi-row-segment"
-  return { obs := obs, spec := spec, cls := cls, tags := tags }
+  -- put the empty observations of the wall-clock ops back in place
+  let rec weave (ops : List (List String × List (List String))) (o : List (List (List String))) : List (List (List String)) :=
+    match ops, o with
+    | [], _ => []
+    | (op, _) :: rest, o =>
+      if isRowOp op then (match o with | x :: xs => x :: weave rest xs | [] => [] :: weave rest [])
+      else [] :: weave rest o
+  if allOps.length != c.ops.length then tags := addTag tags "statettl-reaper-scenario"
+  return { obs := weave allOps obs, spec := spec, cls := cls, tags := tags }
 
 end DrvC17
